@@ -27,9 +27,12 @@ ALL_OPS = ['call', 'load', 'loadk', 'dump', 'dumpk', 'clear', 'arch_off', 'arch_
            'lookup', 'key', 'info']
 
 DEVIATIONS = {
-    # name -> (property, constants override that exposes it)
+    # name -> (property, constants that expose it).  Each names a defect of the pinned code that was
+    # repaired by a fix: commit; with the name in Deviations layer I models the pinned behaviour and TLC
+    # must find a counterexample (its shortest one is replayed on the real code, which must now be accepted)
     'mru_pop_empty': ('C05', dict(ALG='mru', MAXSIZE=1, NARCH=1, OPS={'call', 'load', 'dump'}, ARGS={1, 2, 3}, DEPTH=6)),
     'no_clear_keeps_cache': ('C15', dict(ALG='no', MAXSIZE=0, NARCH=1, OPS={'call', 'load', 'clear'}, ARGS={1, 2}, DEPTH=5)),
+    'safe_no_load_outside_try': ('C16', dict(ALG='no', MAXSIZE=0, NARCH=1, SAFE=True, OPS={'call'}, ARGS={1, 9}, DEPTH=3)),
 }
 
 
@@ -57,7 +60,7 @@ def cfg_text(consts, spec, invariants=(), properties=(), view=None):
     return '\n'.join(lines) + '\n'
 
 
-STRUCT_INVS = ['TypeOK', 'LruQueueCoversResident', 'LruRefcountIsMultiplicity', 'MruQueueIsResident',
+STRUCT_INVS = ['TypeOK', 'LruQueueCoversResident', 'LruRefcountIsMultiplicity', 'MruQueueIsResident', 'MruTopIsResident',
                'LfuCountsAreResident', 'GhostUsesMatch']
 
 
@@ -234,6 +237,7 @@ class CacheRun(object):
         self.jobs = []
         self.gen_states = 0
         self.behaviours = 0
+        self.deviations = {}
 
     # -- step 1
     def model_checks(self, configs, workers_each=4):
@@ -253,9 +257,28 @@ class CacheRun(object):
                 if ops:
                     self.add_behaviours(_consts_from(r['constants']), [(ops, None)], origin='counterexample')
 
+    def deviation_runs(self):
+        """one TLC run per named deviation of this property: the model of the pinned (defective) code
+        must violate layer P; the counterexample is replayed on the real tree like any behaviour"""
+        self.deviations = {}
+        todo = [(d, v[1]) for d, v in sorted(DEVIATIONS.items()) if v[0] == self.pid]
+        for d, over in todo:
+            c = base_constants(QMULT=2, Props={self.pid}, Deviations={d})
+            c.update(over)
+            r = model_check(c, self.work, workers=4)
+            self.mc.append(r)
+            self.deviations[d] = {'counterexample_found': bool(r['violated']), 'what': r.get('what'),
+                                  'ops': r.get('counterexample')}
+            if r['violated'] and r.get('counterexample'):
+                c2 = dict(c)
+                c2['Deviations'] = set()
+                self.add_behaviours(c2, [(r['counterexample'], None)], origin='deviation:' + d, wide=True)
+            elif not r['violated']:
+                self.rep.notes.append('deviation %s: TLC found no counterexample (model insensitive?)' % d)
+
     # -- step 2/3
-    def add_behaviours(self, consts, behaviours, origin='tlc', matrix=None):
-        matrix = matrix or self.matrix(consts)
+    def add_behaviours(self, consts, behaviours, origin='tlc', matrix=None, wide=False):
+        matrix = matrix or self.matrix(consts, wide=wide)
         for (ops, pred) in behaviours:
             self.behaviours += 1
             for (module, backend, keymap, unkey) in matrix:
@@ -283,8 +306,7 @@ class CacheRun(object):
             else:
                 backends.append(rng.choice(pers))
         kms = [('str', True, False), ('hash-md5', True, False), ('default',)]
-        if not safe:
-            kms.append(('raw', True, False))
+        kms.append(('raw', True, False))
         out = []
         for b in backends:
             if self.tier == 'thorough' or wide:
@@ -308,6 +330,7 @@ class CacheRun(object):
 
     # -- step 3/4/5
     def finish(self, extra_traces=(), level='model_checking', assumptions=()):
+        self.deviation_runs()
         t0 = time.time()
         traces = replay_all(self.jobs) + list(extra_traces)
         t_replay = time.time() - t0
@@ -358,6 +381,7 @@ class CacheRun(object):
             'model_checking': {'layer_I_runs': self.mc, 'layer_I_states': mc_states,
                                'layer_I_transitions': mc_trans,
                                'behaviours_generated': self.behaviours,
+                               'named_deviations': self.deviations,
                                'generation_states': self.gen_states},
             'trace_validation': {'traces': len(usable), 'events': st['events'], 'rejected': rejected,
                                  'states': st['states'], 'wall_s': round(st['wall'], 1),
@@ -390,7 +414,7 @@ ASSUME = [
 # ---------------------------------------------------------------------------------------------
 
 def plan_common(run, pid, algs, ops, args, narchs=(0, 1), purges=(False,), safes=(False,), maxsizes=(1, 2),
-                depth_q=6, depth_t=9, qmult_exh=2, sim_num=(24, 200), sim_depth=(30, 60), exh_depth=(4, 6),
+                depth_q=6, depth_t=9, qmult_exh=2, sim_num=(24, 200), sim_depth=(30, 60), exh_depth=(5, 7),
                 exh_args=None, exh_ops=None):
     thorough = run.tier == 'thorough'
     mcs = []
@@ -423,9 +447,16 @@ def plan_common(run, pid, algs, ops, args, narchs=(0, 1), purges=(False,), safes
     with ThreadPoolExecutor(max_workers=common.NCPU) as ex:
         list(ex.map(lambda c: run.generate(c, num, dep), gens))
     # ... and ALL operation sequences of a short length over a reduced alphabet
-    ed = exh_depth[1] if thorough else exh_depth[0]
     ea = set(exh_args or list(args)[:3])
     eops = set(exh_ops or (set(ops) & {'call', 'clear', 'dump', 'load'}))
+    # alphabet size -> the deepest complete enumeration that stays within the tier's budget
+    asize = sum({'call': len(ea), 'lookup': len(ea), 'key': len(ea), 'clear': 2, 'loadk': 4, 'dumpk': 4,
+                 'set_archive': 2}.get(o, 1) for o in eops)
+    budget = 60000 if thorough else 1500
+    ed = 2
+    while asize ** (ed + 1) <= budget:
+        ed += 1
+    ed = min(ed, exh_depth[1] if thorough else exh_depth[0])
     exh = []
     for alg in algs:
         exh.append(base_constants(ALG=alg, MAXSIZE=2, PURGE=False, SAFE=False, QMULT=10,
@@ -438,6 +469,171 @@ def run_unkey(nx):
     return nx + 6
 
 
+# ---- python-side scenario drivers (complement the TLC-generated behaviours) ------------------
+
+BOUNDED = ['lfu', 'lru', 'mru', 'rr']
+ALLALG = ['no', 'inf', 'lfu', 'lru', 'mru', 'rr']
+KM_STD = [('str', True, False), ('hash-md5', True, False), ('default',), ('raw', True, False),
+          ('pickle', True, False), ('dill', True, True), ('str', False, False), ('str', True, True),
+          ('hash-sha1', False, True), ('pickle-repr', False, False), ('raw', True, True), ('str-repr', True, False)]
+
+
+def py_cfg(module, alg, maxsize, backend, keymap, purge=False, how='kw', variant='plain', ni=1, unkey=False, nx=3):
+    cfg = {'module': module, 'alg': alg, 'maxsize': maxsize, 'how': how, 'purge': purge, 'backend': backend,
+           'keymap': keymap, 'nx': nx, 'ni': ni, 'na': 3 if ni > 1 else 2, 'unkey': unkey, 'variant': variant,
+           'origin': 'python'}
+    if alg in ('no', 'inf'):
+        cfg['maxsize'] = 'default'
+    return cfg
+
+
+def compatible(backend, keymap, module):
+    if backend in ('sql',) and keymap[0] in ('raw', 'pickle', 'dill'):
+        return False
+    if backend in ('sql',) and keymap[0] == 'default' and module == 'std':
+        return True      # python hash: an int
+    if keymap[0] == 'raw' and len(keymap) > 1 and not keymap[1]:
+        return False     # non-flat raw keys contain a dict: unhashable
+    return True
+
+
+def scenario_random(run, algs, modules, backends, nseq, length, profile='mixed', maxsizes=(1, 2, 3),
+                    purges=(False, True), variants=('plain',), nargs=8, keymaps=None):
+    rng = run.rng
+    keymaps = keymaps or KM_STD
+    for _ in range(nseq):
+        alg = rng.choice(algs)
+        module = rng.choice(modules)
+        backend = rng.choice(backends)
+        km = rng.choice(keymaps)
+        tries = 0
+        while not compatible(backend, km, module) and tries < 20:
+            km = rng.choice(keymaps)
+            tries += 1
+        if not compatible(backend, km, module):
+            km = ('str', True, False)
+        cfg = py_cfg(module, alg, rng.choice(list(maxsizes)), backend, km, purge=rng.choice(list(purges)),
+                     variant=rng.choice(list(variants)))
+        ops = cd.random_ops(rng, length, cfg, nargs, profile)
+        run.jobs.append((cfg, ops, None))
+
+
+def scenario_second_instance(run, nseq, length):
+    """C02: a second decorated function (fresh cache, new handle) on the archive of the first"""
+    rng = run.rng
+    for _ in range(nseq):
+        alg = rng.choice(ALLALG)
+        module = rng.choice(['std', 'safe'])
+        backend = rng.choice(['dictarch', 'file', 'dir', 'sql'])
+        km = rng.choice([('str', True, False), ('hash-md5', True, False), ('str', True, True)])
+        cfg = py_cfg(module, alg, rng.choice([1, 2]), backend, km, purge=rng.random() < 0.3, ni=2)
+        ops = cd.random_ops(rng, length // 2, cfg, 6, 'nobulk')
+        ops.append({'op': 'dump'} if rng.random() < 0.7 else {'op': 'info'})
+        ops.append({'op': 'decorate', 'i': 2, 'rebind': 1})
+        for _k in range(length // 2):
+            o = cd.random_ops(rng, 1, cfg, 6, 'nobulk')[0]
+            o['i'] = rng.choice([1, 2, 2])
+            ops.append(o)
+        run.jobs.append((cfg, ops, None))
+
+
+def scenario_clone(run, nseq, length, backends=('plain', 'dictarch', 'file', 'dir')):
+    """C20: dill round trip at a random prefix, then the same continuation on both in lock-step"""
+    rng = run.rng
+    for _ in range(nseq):
+        alg = rng.choice(ALLALG)
+        module = rng.choice(['std', 'safe'])
+        backend = rng.choice(list(backends))
+        km = rng.choice([('str', True, False), ('hash-md5', True, False), ('raw', True, False), ('default',), ('dill', True, False)])
+        if module == 'safe' and km[0] == 'raw':
+            km = ('str', True, False)
+        cfg = py_cfg(module, alg, rng.choice([1, 2, 3]), backend, km, purge=rng.random() < 0.25, ni=2)
+        independent = backend in ('plain', 'dictarch')
+        cfg['lockstep'] = independent and alg != 'rr'
+        pre = cd.random_ops(rng, rng.randint(0, length), cfg, 6, 'mixed')
+        ops = list(pre)
+        ops.append({'op': 'clone', 'i': 1, 'j': 2})
+        for _k in range(length):
+            o = cd.random_ops(rng, 1, cfg, 6, 'mixed')[0]
+            if cfg['lockstep']:
+                o1 = dict(o); o1['i'] = 1
+                o2 = dict(o); o2['i'] = 2; o2['mirror'] = 1
+                ops += [o1, o2]
+            else:
+                o['i'] = rng.choice([1, 2])
+                ops.append(o)
+        run.jobs.append((cfg, ops, None))
+
+
+def scenario_spellings(run, length, reps=1):
+    """C05: every way of passing maxsize (0, None, n; positionally or by keyword), both modules"""
+    rng = run.rng
+    for module in ('std', 'safe'):
+        for alg in BOUNDED:
+            for ms in (0, None, 1, 2, 3):
+                for how in ('kw', 'pos'):
+                    for _ in range(reps):
+                        backend = rng.choice(['plain', 'dictarch', 'file'])
+                        cfg = py_cfg(module, alg, ms, backend, ('str', True, False), purge=rng.random() < 0.5, how=how)
+                        ops = cd.random_ops(rng, length, cfg, 6, 'mixed')
+                        run.jobs.append((cfg, ops, None))
+
+
+def scenario_unkeyable(run, nseq, length):
+    """C16: safe decorators with arguments that cannot be keyed, with and without an archive"""
+    rng = run.rng
+    kms = [('raw', True, False), ('hash', True, False), ('str', True, False), ('str', False, False),
+           ('pickle', True, False), ('dill', True, False), ('hash-md5', True, False), ('default',),
+           ('pickle-repr', True, False)]
+    for alg in ALLALG:
+        for km in kms:
+            for backend in ('plain', 'dictarch', 'dir'):
+                for _ in range(nseq):
+                    cfg = py_cfg('safe', alg, rng.choice([1, 2]), backend, km, purge=rng.random() < 0.3, unkey=True)
+                    ops = []
+                    for o in cd.random_ops(rng, length, cfg, 8, 'mixed'):
+                        if o['op'] == 'call' and rng.random() < 0.35:
+                            o = {'op': 'call', 'a': 9}
+                        ops.append(o)
+                    run.jobs.append((cfg, ops, None))
+
+
+def check_C01(tier):
+    run = CacheRun('C01', tier)
+    plan_common(run, 'C01', ALLALG, ops=ALL_OPS, args=[1, 2, 3, 4, 5, 7], narchs=(0, 1, 2), purges=(False, True),
+                safes=(False, True), maxsizes=(1, 2), depth_q=5, depth_t=7, sim_num=(8, 60), exh_depth=(3, 4),
+                exh_ops={'call', 'clear', 'dump', 'load', 'arch_off', 'arch_on'})
+    t = tier == 'thorough'
+    scenario_random(run, ALLALG, ['std', 'safe'], ['plain', 'null', 'dictarch', 'file', 'dir', 'sql', 'direct-dict',
+                    'direct-file', 'direct-dir'], 2500 if t else 350, 40 if t else 25,
+                    variants=('plain', 'plain', 'ignore_y', 'tol0'))
+    return run.finish(assumptions=ASSUME)
+
+
+def check_C02(tier):
+    run = CacheRun('C02', tier)
+    plan_common(run, 'C02', ALLALG, ops=ALL_OPS, args=[1, 2, 3, 4, 5], narchs=(0, 1), purges=(False, True),
+                safes=(False,), maxsizes=(1, 2), depth_q=5, depth_t=7, sim_num=(10, 80), exh_depth=(3, 4),
+                exh_ops={'call', 'clear', 'dump', 'arch_off', 'arch_on'})
+    t = tier == 'thorough'
+    scenario_second_instance(run, 1500 if t else 250, 30 if t else 20)
+    scenario_random(run, ALLALG, ['std', 'safe'], ['plain', 'dictarch', 'file', 'dir', 'sql', 'direct-dict', 'direct-dir'],
+                    1500 if t else 200, 40 if t else 25, variants=('plain', 'plain', 'ignore_y', 'ignore_1', 'tol0'))
+    return run.finish(assumptions=ASSUME)
+
+
+def check_C05(tier):
+    run = CacheRun('C05', tier)
+    plan_common(run, 'C05', ALLALG, ops=['call', 'load', 'loadk', 'dump', 'clear', 'arch_off', 'arch_on'],
+                args=[1, 2, 3, 4, 7], narchs=(0, 1), purges=(False, True), safes=(False,), maxsizes=(1, 2),
+                depth_q=6, depth_t=8, sim_num=(12, 80), exh_depth=(4, 5), exh_ops={'call', 'load', 'dump', 'clear'})
+    t = tier == 'thorough'
+    scenario_spellings(run, 30 if t else 20, reps=6 if t else 1)
+    scenario_random(run, BOUNDED, ['std', 'safe'], ['dictarch', 'file', 'dir', 'sql'], 1200 if t else 150,
+                    40 if t else 25, maxsizes=(1, 2, 3, 4))
+    return run.finish(assumptions=ASSUME)
+
+
 def check_C06(tier):
     run = CacheRun('C06', tier)
     plan_common(run, 'C06', ['lfu', 'lru', 'mru', 'rr'],
@@ -448,7 +644,81 @@ def check_C06(tier):
                                             'the policy clause is not judged while such entries are resident (C05 covers the bound)'])
 
 
-CHECKS = {'C06': check_C06}
+def check_C07(tier):
+    run = CacheRun('C07', tier)
+    plan_common(run, 'C07', ['no'] + BOUNDED, ops=['call', 'load', 'dump', 'dumpk', 'clear', 'arch_off', 'arch_on', 'set_archive'],
+                args=[1, 2, 3, 4, 7], narchs=(1, 2), purges=(False, True), safes=(False, True), maxsizes=(1, 2),
+                depth_q=5, depth_t=7, sim_num=(8, 60), exh_depth=(4, 5), exh_ops={'call', 'load', 'clear', 'arch_off', 'arch_on'})
+    t = tier == 'thorough'
+    scenario_random(run, ['no'] + BOUNDED, ['std', 'safe'], ['dictarch', 'file', 'dir', 'sql'], 1500 if t else 250,
+                    40 if t else 25)
+    return run.finish(assumptions=ASSUME)
+
+
+def check_C15(tier):
+    run = CacheRun('C15', tier)
+    plan_common(run, 'C15', ALLALG, ops=ALL_OPS, args=[1, 2, 3, 4, 7], narchs=(0, 1), purges=(False, True),
+                safes=(False, True), maxsizes=(1, 2), depth_q=5, depth_t=7, sim_num=(8, 60), exh_depth=(3, 4),
+                exh_ops={'call', 'clear', 'load', 'dump', 'arch_off', 'arch_on'})
+    t = tier == 'thorough'
+    scenario_random(run, ALLALG, ['std', 'safe'], ['plain', 'dictarch', 'file', 'dir', 'sql', 'direct-dict'],
+                    1500 if t else 250, 40 if t else 25)
+    scenario_unkeyable(run, 2 if t else 1, 20)
+    return run.finish(assumptions=ASSUME)
+
+
+def check_C16(tier):
+    run = CacheRun('C16', tier)
+    plan_common(run, 'C16', ALLALG, ops=['call', 'load', 'dump', 'clear', 'lookup', 'arch_off', 'arch_on'],
+                args=[1, 2, 3, 7, 8], narchs=(0, 1), purges=(False, True), safes=(False, True), maxsizes=(1, 2),
+                depth_q=5, depth_t=7, sim_num=(8, 60), exh_depth=(4, 5), exh_args={1, 2, 7}, exh_ops={'call', 'clear', 'load'})
+    t = tier == 'thorough'
+    scenario_unkeyable(run, 4 if t else 1, 25 if t else 18)
+    scenario_random(run, ALLALG, ['std', 'safe'], ['plain', 'dictarch', 'file', 'dir', 'direct-dict'],
+                    1000 if t else 150, 40 if t else 25)
+    return run.finish(assumptions=ASSUME + ['"unkeyable" arguments: a list for raw / python-hash keymaps, an object whose '
+                                            'repr/str/pickle/hash raise for the serialising keymaps'])
+
+
+def check_C18(tier):
+    run = CacheRun('C18', tier)
+    plan_common(run, 'C18', ALLALG, ops=['call', 'lookup', 'key', 'clear', 'dump', 'load', 'info'],
+                args=[1, 2, 3, 4, 5, 7], narchs=(0, 1), purges=(False,), safes=(False, True), maxsizes=(1, 2),
+                depth_q=5, depth_t=7, sim_num=(8, 60), exh_depth=(4, 5), exh_ops={'call', 'lookup', 'clear'})
+    t = tier == 'thorough'
+    rng = run.rng
+    n = 2000 if t else 300
+    for _ in range(n):
+        alg = rng.choice(ALLALG)
+        module = rng.choice(['std', 'safe'])
+        backend = rng.choice(['plain', 'dictarch', 'dir', 'file'])
+        km = rng.choice(KM_STD)
+        if not compatible(backend, km, module):
+            km = ('str', True, False)
+        cfg = py_cfg(module, alg, rng.choice([1, 2, 3]), backend, km, variant=rng.choice(['plain', 'ignore_y', 'ignore_1', 'tol0']))
+        ops = [{'op': 'wrapped'}]
+        for o in cd.random_ops(rng, 30 if t else 22, cfg, 8, 'nobulk'):
+            if rng.random() < 0.35:
+                o = {'op': rng.choice(['lookup', 'key']), 'a': rng.randint(1, 8)}
+            ops.append(o)
+        run.jobs.append((cfg, ops, None))
+    return run.finish(assumptions=ASSUME)
+
+
+def check_C20(tier):
+    run = CacheRun('C20', tier)
+    # the mechanism model is checked for the independence / bookkeeping clauses that clones rely on
+    plan_common(run, 'C20', ['lru', 'lfu', 'mru'], ops=['call', 'clear', 'dump'], args=[1, 2, 3], narchs=(0, 1),
+                purges=(False,), safes=(False,), maxsizes=(2,), depth_q=5, depth_t=7, sim_num=(4, 20), exh_depth=(3, 4))
+    t = tier == 'thorough'
+    scenario_clone(run, 3000 if t else 500, 14 if t else 10)
+    return run.finish(assumptions=ASSUME + ['clones are produced with dill.loads(dill.dumps(f)) in the same process; '
+                                            'lock-step equality is only required when the archives of original and copy are independent and the algorithm is not random'])
+
+
+CHECKS = {'C01': check_C01, 'C02': check_C02, 'C05': check_C05, 'C06': check_C06, 'C07': check_C07,
+          'C15': check_C15, 'C16': check_C16, 'C18': check_C18, 'C20': check_C20}
+
 
 
 def main(pid, tier):
